@@ -4,6 +4,7 @@ let table : (Stdlib.String.t * (z list -> z list)) list = [   (* Stdlib.: the ex
   ("coll", run_coll);
   ("kernel", run_kernel);
   ("premises", run_premises);
+  ("fits", run_fits);
   ("frag", run_frag);
   ("defaults", run_defaults);
   ("metaviews", run_metaviews);
